@@ -332,6 +332,24 @@ func (g *Gen) amt(max int64) int64 {
 	return 1 + g.R.Int63n(max)
 }
 
+// EdgeAmount is a transfer() amount on the border between what the caller's liquid balance covers and what only the
+// rewards claimed by the same call cover: k = 0..4 -> liquid-1, liquid, liquid+1, liquid+claimable, liquid+claimable+1
+// (claimable = rewards withdrawRewards() would pay: delegation > 0 and reward >= threshold).  Meaningful for contract
+// callers only: they pay no fee, so their liquid balance during the call is the committed one on both routes.
+func (w *World) EdgeAmount(p pre, d string, k int) int64 {
+	liquid, claim := p.bal[d], int64(0)
+	for _, v := range w.V {
+		if p.deleg[d][v] > 0 && p.rew[d][v] >= w.MinW {
+			claim += p.rew[d][v]
+		}
+	}
+	a := []int64{liquid - 1, liquid, liquid + 1, liquid + claim, liquid + claim + 1}[k]
+	if a < 1 {
+		a = 1
+	}
+	return a
+}
+
 // Op draws one op for caller d.
 func (g *Gen) Op(p pre, d string) Op {
 	r := g.R.Intn(100)
@@ -370,6 +388,9 @@ func (g *Gen) Op(p pre, d string) Op {
 		to := d
 		if g.R.Intn(8) == 0 {
 			to = g.pick("a3", "a4", "ax")
+		}
+		if IsContract(d) && to == d && g.R.Intn(2) == 0 {
+			return Op{M: "transfer", To: d, Amt: g.W.EdgeAmount(p, d, g.R.Intn(5))}
 		}
 		return Op{M: "transfer", To: to, Amt: g.amt(20)}
 	default:
